@@ -28,7 +28,11 @@ fn microergs_per_dosc(height: BlockHeight) -> u128 {
         }
         while tab.len() < (height.0 + 1) as usize {
             let last = tab.last().copied().unwrap();
-            tab.push((last + 1).max(last + last / 2_000_000));
+            // the inflator outgrows 128 bits at block 150,582,831: from there on it stays at the largest value
+            tab.push(
+                last.saturating_add(1)
+                    .max(last.saturating_add(last / 2_000_000)),
+            );
         }
         tab[height.0 as usize]
     })
